@@ -91,6 +91,25 @@ def parse_run(meta, rc, stdout, stderr):
             continue
         kind = classify(msg)
         spans = d.get('spans', [])
+
+        def call_site(sp):
+            # a span inside a macro expansion (panic!, assert!, ...) lives in the macro's file: follow the expansion chain
+            # to the invocation in the generated file
+            seen = 0
+            while sp is not None and os.path.basename(sp.get('file_name', '')) != os.path.basename(meta['file']) and seen < 20:
+                exp = sp.get('expansion') or {}
+                nxt = exp.get('span')
+                if nxt is None:
+                    return None
+                lab, prim_ = sp.get('label'), sp.get('is_primary')
+                sp = dict(nxt)
+                sp.setdefault('label', lab)
+                if sp.get('label') is None:
+                    sp['label'] = lab
+                sp['is_primary'] = prim_
+                seen += 1
+            return sp
+        spans = [x for x in (call_site(sp) for sp in spans) if x is not None] or spans
         ours = [s for s in spans if os.path.basename(s.get('file_name', '')) == os.path.basename(meta['file'])]
         prim = [s for s in ours if s.get('is_primary')] or ours
         line = prim[0]['line_start'] if prim else None
